@@ -1702,7 +1702,7 @@ fn exec_note(song: &mut Song, t: &Token) {
     // check range
     let v = value_range(0, v, 127);
     // event
-    let event = Event::note(timepos + t, trk!(song).channel, note.no, notelen_real, v);
+    let event = Event::note(timepos + t, trk!(song).channel, value_range(0, note.no, 127), notelen_real, v);
     // println!("- {}: note(no={},len={},qlen={},v={},t={},o={})", trk.timepos, noteno, notelen_real, qlen, v, t, o);
     trk!(song).timepos += notelen;
 
@@ -1960,7 +1960,7 @@ fn exec_note_n(song: &mut Song, t: &Token) {
     let event = Event::note(
         trk!(song).timepos + t,
         trk!(song).channel,
-        data_note_no + track_key + key_shift,
+        value_range(0, data_note_no + track_key + key_shift, 127),
         notelen_real,
         v,
     );
